@@ -29,6 +29,14 @@ def ratBits : P Rat := do
   | some r => pure r
   | none => failure
 
+/-- any double, special values included -/
+def extOfBits (b : Nat) : ExtVal :=
+  match ratOfBits b with
+  | some q => .fin q
+  | none => if b % 2 ^ 52 ≠ 0 then .nan else if b / 2 ^ 63 % 2 = 1 then .ninf else .pinf
+
+def extBits : P ExtVal := do return extOfBits (← nat)
+
 def dimOf : Nat → Dim
   | 0 => .face | 1 => .node | 2 => .edge | k + 3 => .other k
 
@@ -50,8 +58,25 @@ def gridP : P Grid := do
   let f ← nat; let n ← nat; let e ← nat; let i ← nat
   pure { nFace := f, nNode := n, nEdge := e, gid := i }
 
-def outcomeCode : Outcome Rat → String
+def outcomeCode {K} : Outcome K → String
   | .ok _ => "ok" | .error .node => "node" | .error .edge => "edge" | .error .other => "other"
+
+def arrEP : P (Arr ExtVal) := do
+  let dims ← nats; let shape ← nats; let data ← list extBits; let name ← nameP; let grid ← nat
+  pure { dims := dims.map dimOf, shape := shape, data := data, name := name, grid := grid }
+
+def obsEP : P ObsE := do
+  let tag ← nat
+  if tag = 0 then pure .rejected else do
+    let r ← arrEP
+    pure (.returned r)
+
+/-- `tag num den`: 0 finite, 1 NaN, 2 +inf, 3 -inf -/
+def encExt : ExtVal → String
+  | .fin q => s!"0 {q.num} {q.den}" | .nan => "1 0 1" | .pinf => "2 0 1" | .ninf => "3 0 1"
+
+def encExts (l : List ExtVal) : String :=
+  " ".intercalate ((toString l.length) :: l.map encExt)
 
 def encRats (l : List Rat) : String :=
   " ".intercalate ((toString l.length) :: l.map (fun q => s!"{q.num} {q.den}"))
@@ -70,6 +95,21 @@ def handle (cmd : String) (args : List Int) : Option String :=
       pure (s!"spec {bad.length} " ++ " ".intercalate bad ++ s!" model {outcomeCode m} asis "
             ++ s!"{outcomeCode (integrateAsIs g areas a)} dsasis {outcomeCode (datasetIntegrateAsIs g areas a)} lenfb {outcomeCode (integrateLenFallback g areas a)} "
             ++ s!"self {self.length} vals {encRats vals}")
+  | "C06.judgeext" => do
+      -- data and/or output contain NaN / ±inf: the same model function run over extended values
+      let (g, areas, a, o) ← run (do
+        let g ← gridP; let areas ← list ratBits; let a ← arrEP; let o ← obsEP
+        pure (g, areas, a, o)) args
+      let bad := failedClausesE g areas a o
+      let m := integrate g (areas.map ExtVal.fin) a
+      let vals := match m with | .ok r => r.data | .error _ => []
+      let self := failedClausesE g areas a (obsEOf m)
+      -- what a NaN-skipping sum (xarray skipna) would give, row by row (diagnosis only)
+      let skip := match m with
+        | .ok _ => (rowsOf (prodL a.shape.dropLast) areas.length a.data).map (dotSkipNaN areas)
+        | .error _ => []
+      pure (s!"spec {bad.length} " ++ " ".intercalate bad ++ s!" model {outcomeCode m} "
+            ++ s!"self {self.length} vals {encExts vals} skip {encExts skip}")
   | "C06.total" => do
       -- Σ areas (what integrating the constant 1 must give), exact
       let areas ← run (list ratBits) args
